@@ -576,9 +576,14 @@ func (self *Core) runInstruction(instruction compiler.Instruction) *value.VmInte
 		)
 	case compiler.Opcode_SetTryLabel:
 		i := instruction.(compiler.OneIntOneStringInstruction)
-		self.ExceptionCatchLabels = append(self.ExceptionCatchLabels, CallFrame{
-			Function:           i.ValueString,
-			InstructionPointer: uint(i.ValueInt),
+		self.ExceptionCatchLabels = append(self.ExceptionCatchLabels, ExceptionCatchLabel{
+			CallFrame: CallFrame{
+				Function:           i.ValueString,
+				InstructionPointer: uint(i.ValueInt),
+			},
+			CallStackSize: len(self.CallStack),
+			StackSize:     len(self.Stack),
+			MemoryPointer: self.MemoryPointer,
 		})
 	case compiler.Opcode_PopTryLabel:
 		self.ExceptionCatchLabels = self.ExceptionCatchLabels[:len(self.ExceptionCatchLabels)-1]
